@@ -424,7 +424,7 @@ func checkOutboxSQL(w *World, r *Run, rule string, stmts []*sqlStmt, entity, tab
 			if strings.HasPrefix(n, "findLast") {
 				want = "id DESC"
 			}
-			if strings.HasSuffix(order, want) == false || limit != "1" {
+			if order != want || limit != "1" {
 				if !strings.Contains(lower, "groupedby") {
 					ok = false
 					detail = "expected ORDER BY " + want + " LIMIT 1, found ORDER BY " + order + " LIMIT " + limit
